@@ -163,10 +163,23 @@ def run(out, tier, seed, model_ok):
                 out.violation("mapping %r %s the probe element %s" % (text, "does not match" if should else "matches", mark),
                               {"kind": "probe", "parts": parts, "options": {"styleMap": text, "includeDefault": False}}, expected=probes, actual=sorted(hits))
                 break
+    # meaning of a mapping INSIDE a style map: several mappings whose matchers agree in their fields and differ in kind, over a
+    # document with an element of every kind for every field value (harness/matchprobe.py); whole result also against the model
+    import apicheck as A
+    import matchprobe as MP
+    ens = [MP.ensemble_case(rng, "c06-ens%d-%d" % (seed, i)) for i in range(common.deepen(500 if tier == "quick" else 8000))]
+    run_ = A.ApiRun(out, "C06", model_ok, lambda r, case: {"value": r["value"]}, observers=[MP.mappings_apply], name="ensemble")
+    run_.run(ens, nontrivial=lambda c, r: bool(c["features"]))
+    out.extra["ensemble_features"] = run_.stats
     out.rule = ("abstract (matcher, path) pairs over arbitrary identifier and string contents (quotes, backslashes, brackets, >, |, =>, leading digits, \\n \\r \\t, non-ASCII), "
                 "printed by an independent printer with varying legal whitespace and redundant escapes, parsed by the real parser and compared structurally with the intended "
                 "mapping (and with the Lean parser); plus probe documents containing a matching element and one-feature-off decoys (other id, other name, name missing, other "
                 "level, other list type, other colour) converted with the printed mapping; non-trivial = hostile characters or a multi-element path")
+    out.rule += ("; plus style maps of 2-7 mappings (split at a random point between style_map and the embedded map) whose matchers mostly share their FIELDS and differ "
+                 "in KIND (p / r / table with one style id and one style-name matcher, highlight[color=X] / br[type=X], the six toggles), each writing an element with a class "
+                 "of its own, over documents in which paragraphs, runs and tables share style ids and names, highlights are coloured line / page / column and breaks of every "
+                 "type occur; observation = for every character and every written break, in order, the set of mappings whose elements enclose it, against an independent "
+                 "first-mapping-of-the-element's-own-kind reading, and the whole result against the Lean model")
     out.sample({"text": items[0][1], "mapping": items[0][0]})
     out.sample({"text": items[1][1]})
 
@@ -179,6 +192,11 @@ def replay(out, payload, model_ok):
         exp = GS.denote(case["mapping"])
         if real["styles"] != [exp] or real["messages"]:
             out.violation("the text of a mapping does not read back as the mapping it was printed from", case, expected=exp, actual=real)
+    elif case["kind"] == "api":
+        import apicheck as A
+        import matchprobe as MP
+        A.replay_case(out, "C06", model_ok, payload, lambda r, c: {"value": r["value"]}, [MP.mappings_apply] if "meta" in case else [])
+        return
     else:
         r = D.run_real(D.build_docx(case["parts"]), case["options"], want_doc=False)
         out.sample(r.get("value"))
